@@ -712,6 +712,8 @@ class ExecCtx:
             if p.get('p') == 'tuplestruct' and p['path'].endswith('Some') and len(p['elems']) == 1 and p['elems'][0].get('p') == 'ident':
                 var = p['elems'][0]['name']
                 val = st.env.get(ex['path']) if is_path(ex) else None
+                if val is None and ex.get('k') == 'index' and is_path(ex['e']) and ex['e']['path'] in self.consts and self.is_byte_index(ex['idx'], st):
+                    val = ('lookup', ex['e']['path'])       # `if let Some(x) = TABLE[byte as usize]`
                 if val is None and method(ex, 'read', self.lexv):
                     raise Unsupported('inline read in if-let')
                 if val is None:
